@@ -17031,7 +17031,8 @@ func getErrorHandlingFromPathAttribute(t BGPAttrType) ErrorHandling {
 	case BGP_ATTR_TYPE_AS_PATH:
 		return ERROR_HANDLING_TREAT_AS_WITHDRAW
 	case BGP_ATTR_TYPE_AS4_PATH:
-		return ERROR_HANDLING_TREAT_AS_WITHDRAW
+		// RFC 6793 Section 6: "attribute discard" for AS4_PATH and AS4_AGGREGATOR
+		return ERROR_HANDLING_ATTRIBUTE_DISCARD
 	case BGP_ATTR_TYPE_NEXT_HOP:
 		return ERROR_HANDLING_TREAT_AS_WITHDRAW
 	case BGP_ATTR_TYPE_MULTI_EXIT_DISC:
@@ -17043,7 +17044,7 @@ func getErrorHandlingFromPathAttribute(t BGPAttrType) ErrorHandling {
 	case BGP_ATTR_TYPE_AGGREGATOR:
 		return ERROR_HANDLING_ATTRIBUTE_DISCARD
 	case BGP_ATTR_TYPE_AS4_AGGREGATOR:
-		return ERROR_HANDLING_TREAT_AS_WITHDRAW
+		return ERROR_HANDLING_ATTRIBUTE_DISCARD
 	case BGP_ATTR_TYPE_COMMUNITIES:
 		return ERROR_HANDLING_TREAT_AS_WITHDRAW
 	case BGP_ATTR_TYPE_ORIGINATOR_ID:
